@@ -7,7 +7,12 @@
 //
 // op:   ls run <method> <interp> <max_iterations> <c1> <c2> <safeguard> <tau1> <tau2> <tau3> <delta> <cg-epsilon> <cg-theta>
 //              <cg-gamma> <cg-ro> <t0> <function> <x0: n v…> <direction>
-//         <function>  = fn <id> <dims> <summands> | quad <dims> <seed> <cond> <scale>
+//         <function>  = fn <id> <dims> <summands> | quad <dims> <seed> <cond> <scale> |
+//                       herm <curv-left> <curv-right> <3k t_1 f_1 g_1 … t_k f_k g_k>   (a user-supplied 1-D C1 function: the
+//                       piecewise-cubic Hermite interpolant of the k >= 2 knots (t_i increasing, value f_i, slope g_i), continued
+//                       outside [t_1, t_k] by f_end + g_end s + curv/2 s^2; the knot values are returned exactly at the knots.
+//                       Used to replay model witnesses of Props/C07.lean on the real code: x0 = [0], direction `explicit 1 <1.0>`
+//                       makes the line function phi(t) = f(t) exactly)
 //         <direction> = neggrad | posgrad | zero | ortho | pert <n p…> (d_i = -g_i (1+p_i)) | qn <seed> (d = -H g, H SPD) |
 //                       explicit <n d…>
 // aug:  <op> @ <epsilon0> <epsilon1> <machine epsilon> <f0> <dg0> <valid0> <n> (<t_k> <f_k> <dg_k> <valid_k>)×n
@@ -186,6 +191,86 @@ private:
     matrix_t m_A;
 };
 
+// user-supplied line function: piecewise-cubic Hermite interpolant (C1), see the header comment
+class hermite_t final : public function_t
+{
+public:
+    hermite_t(std::vector<double> t, std::vector<double> f, std::vector<double> g, double curv_left, double curv_right)
+        : function_t("verif-hermite", 1)
+        , m_t(std::move(t))
+        , m_f(std::move(f))
+        , m_g(std::move(g))
+        , m_curv_left(curv_left)
+        , m_curv_right(curv_right)
+    {
+        convex(convexity::no);
+        smooth(smoothness::yes);
+    }
+
+    rfunction_t clone() const override { return std::make_unique<hermite_t>(*this); }
+
+    scalar_t do_vgrad(vector_cmap_t x, vector_map_t gx) const override
+    {
+        const auto t = x(0);
+        const auto k = m_t.size();
+        scalar_t   f = 0, g = 0;
+        if (!(t >= m_t[0]))
+        {
+            const auto s = t - m_t[0];
+            f            = m_f[0] + m_g[0] * s + 0.5 * m_curv_left * s * s;
+            g            = m_g[0] + m_curv_left * s;
+        }
+        else if (t > m_t[k - 1])
+        {
+            const auto s = t - m_t[k - 1];
+            f            = m_f[k - 1] + m_g[k - 1] * s + 0.5 * m_curv_right * s * s;
+            g            = m_g[k - 1] + m_curv_right * s;
+        }
+        else
+        {
+            size_t i = 0;
+            while (i + 2 < k && t >= m_t[i + 1])
+            {
+                ++i;
+            }
+            if (t == m_t[i])
+            {
+                f = m_f[i];
+                g = m_g[i];
+            }
+            else if (t == m_t[i + 1])
+            {
+                f = m_f[i + 1];
+                g = m_g[i + 1];
+            }
+            else
+            {
+                const auto h   = m_t[i + 1] - m_t[i];
+                const auto s   = (t - m_t[i]) / h;
+                const auto h00 = (1 + 2 * s) * (1 - s) * (1 - s);
+                const auto h10 = s * (1 - s) * (1 - s);
+                const auto h01 = s * s * (3 - 2 * s);
+                const auto h11 = s * s * (s - 1);
+                f              = h00 * m_f[i] + h10 * h * m_g[i] + h01 * m_f[i + 1] + h11 * h * m_g[i + 1];
+                const auto d00 = 6 * s * (s - 1);
+                const auto d10 = (1 - s) * (1 - 3 * s);
+                const auto d01 = -d00;
+                const auto d11 = s * (3 * s - 2);
+                g              = d00 * m_f[i] / h + d10 * m_g[i] + d01 * m_f[i + 1] / h + d11 * m_g[i + 1];
+            }
+        }
+        if (gx.size() == 1)
+        {
+            gx(0) = g;
+        }
+        return f;
+    }
+
+private:
+    std::vector<double> m_t, m_f, m_g;
+    double              m_curv_left, m_curv_right;
+};
+
 bool all_finite(const vector_t& v)
 {
     for (tensor_size_t i = 0; i < v.size(); ++i)
@@ -303,6 +388,29 @@ std::string vh::execute(toks_t& toks, std::string& aug)
         }
         inner            = std::make_unique<quadratic_t>(dims, seed, cond, scale);
         convex_quadratic = true;
+    }
+    else if (fkind == "herm")
+    {
+        const auto curv_left  = toks.f();
+        const auto curv_right = toks.f();
+        const auto knots      = toks.fs();
+        if (knots.size() < 6 || knots.size() % 3 != 0 || !std::isfinite(curv_left) || !std::isfinite(curv_right))
+        {
+            throw bad_op("herm parameters");
+        }
+        std::vector<double> t, f, g;
+        for (size_t i = 0; i < knots.size(); i += 3)
+        {
+            if (!std::isfinite(knots[i]) || !std::isfinite(knots[i + 1]) || !std::isfinite(knots[i + 2]) ||
+                (!t.empty() && !(knots[i] > t.back())))
+            {
+                throw bad_op("herm knots");
+            }
+            t.push_back(knots[i]);
+            f.push_back(knots[i + 1]);
+            g.push_back(knots[i + 2]);
+        }
+        inner = std::make_unique<hermite_t>(std::move(t), std::move(f), std::move(g), curv_left, curv_right);
     }
     else
     {
